@@ -77,6 +77,19 @@ def ps1(ctx, prog, cfg):
                     "`size` dominates the call, so a panicking destructor leaves them counted and they are "
                     "destroyed again later" % prim,
                     "store to size at %s dominates the call" % (", ".join("bb%d[%d]" % p for p in stores)), cfg)
+                # PS1b: the destroying call is the last header-relevant event: no store to size/start
+                # is reachable after it (a panic in a destructor would skip that store)
+                after = f.reachable_from(b, unwind=False)
+                late = []
+                for x in sorted(after):
+                    for (i, w) in common.writes_at(f, x):
+                        if "size" in w or "start" in w:
+                            late.append("bb%d %s" % (x, w))
+                ctx.check(
+                    not late, "PS1", f.short, "no header write after %s" % prim.split("::")[-1], short_loc(f, b),
+                    "the header is still being updated after `%s` has run destructors (%s): if a destructor panics that "
+                    "update is skipped and the buffer describes slots whose elements were already destroyed" % (prim, "; ".join(late)),
+                    "no store to size/start reachable from the call", cfg)
     ctx.floor("PS1", "call sites of drop_range", n, 2, cfg)
 
 
